@@ -737,3 +737,94 @@ def r11(R):
     for v in vs[:1]:
         R.violation(v.node, v.message, g, v.path,
                     key='explicit gc overridden by the default')
+
+
+# ----------------------------------------------------------------- C07.R12
+@rule('C07.R12', 'the blob files a pack tagged for removal are removed only '
+      'by the pack that tagged them, after it has put the packed file in '
+      'place: never from a list some earlier pack -- which may have FAILED '
+      'before the swap, its records all still there -- left behind',
+      props=['C13', 'C08'], min_instances=1)
+def r12(R):
+    cls = R.prog.cls(FS)
+    f = R.method(cls, 'pack')
+    g, b, F = R.cfg(f, cls, max_depth=0)
+    seen = [0]
+    REMOVER = '_remove_blob_files_tagged_for_removal_during_pack'
+
+    # locals initialised to None and tested for it (`pack_result`): the
+    # path on which the packer raised does not go on to the swap
+    from ..flow import Flags
+    nones = {t.id for s_ in walk_local(f.node) if isinstance(s_, ast.Assign)
+             and isinstance(s_.value, ast.Constant) and
+             s_.value.value is None
+             for t in s_.targets if isinstance(t, ast.Name)}
+    flags = Flags(F, lambda e, fr: e.id if isinstance(e, ast.Name) and
+                  e.id in nones else None)
+
+    def edge(node, st0, lab, tgt):
+        st, fl = st0
+        fl = flags.learn(node, fl, lab)
+        if fl is PRUNE:
+            return PRUNE
+        if lab in ('e', 'eb'):
+            return (st, fl)
+        fl = flags.assign(node, fl, lab)
+        return (edge1(node, st, lab, tgt), fl)
+
+    def edge1(node, st, lab, tgt):
+        for op in F.ops(node):
+            if op.kind == 'call' and op.path is not None and (
+                    path_is(op.path, ('self', 'packer')) or
+                    op.path[-1] == 'packer'):
+                st = 'packed'
+            if st == 'packed' and op.kind == 'call' and op.path is not None \
+                    and op.path[-1] in ('rename', 'replace') and \
+                    op.path[0] in ('@os', 'os'):
+                st = 'swapped'
+        return st
+
+    def at(node, st0):
+        st = st0[0]
+        for op in F.ops(node):
+            if op.kind == 'call' and op.path is not None and \
+                    op.path[-1] == REMOVER:
+                seen[0] += 1
+                if st != 'swapped':
+                    return Violation(
+                        'FileStorage.pack removes the blob files listed in '
+                        '<blobs>/.removed %s: the list may be what an '
+                        'EARLIER pack left behind that failed before the '
+                        'swap (disk full while copying) -- its data file is '
+                        'unchanged, every revision is still there, and the '
+                        'blob files of revisions that are current for '
+                        'snapshots at or after the new pack time are '
+                        'removed' % (
+                            'before this pack\'s packer has run' if
+                            st == 'start' else
+                            'although the packed file was not put in place'))
+        return st0
+
+    vs, stats = explore(g, ('start', frozenset()), at=at, edge=edge)
+    R.count(stats)
+    R.instance('FileStorage.pack', removal_calls=seen[0])
+    R.require(seen[0] >= 1 or vs, 'FileStorage.pack no longer removes the '
+              'blob files the packer tagged')
+    for v in vs[:1]:
+        R.violation(v.node, v.message, g, v.path,
+                    key='tagged blob files removed without this pack\'s '
+                        'swap')
+    # and nobody else calls the remover
+    for fn in R.prog.all_functions():
+        if fn.module.relpath.startswith('ZODB/tests') or fn is f:
+            continue
+        for c in walk_local(fn.node):
+            if isinstance(c, ast.Call) and isinstance(
+                    c.func, ast.Attribute) and c.func.attr == REMOVER:
+                R.violation(
+                    (fn.module.relpath, fn.qualname,
+                     ' '.join(ast.unparse(c).split()), c.lineno),
+                    '%s calls %s outside FileStorage.pack: the list it '
+                    'works off is only meaningful right after the swap of '
+                    'the pack that wrote it' % (fn.qualname, REMOVER),
+                    key='tagged blob files removed outside pack')
